@@ -295,9 +295,17 @@ def batch_run(model_cls: Type[Model], parameters: Union[ParameterList, Dict[str,
                 results.append(data)
     else:
         with Pool(processes) as pool:
-            for data in pool.imap_unordered(run_model, skwargs_with_repetition):
-                if data is not None:
-                    results.append(data)
+            try:
+                for data in pool.imap_unordered(run_model, skwargs_with_repetition):
+                    if data is not None:
+                        results.append(data)
+            except Exception:
+                # A run failed. Let the workers finish before the pool is terminated on leaving the with block:
+                # terminating a pool whose workers are still sending results can deadlock, and then the error
+                # would never reach the caller.
+                pool.close()
+                pool.join()
+                raise
 
     return results
 
